@@ -45,7 +45,7 @@ Qed.
 Lemma csl_create st tk :
   is_create_ddl tk = true ->
   change_splitlevel st (fst tk) (snd tk)
-  = ({| in_declare := in_declare st; in_case := in_case st; is_create := true;
+  = ({| in_declare := in_declare st; case_depth := case_depth st; is_create := true;
         begin_depth := begin_depth st |}, 0).
 Proof.
   unfold is_create_ddl, T_DDL, w_CREATE. intros H.
@@ -176,15 +176,15 @@ Proof.
     rewrite E1. cbn [level acc ss is_create pinit] in Hl1, Ha1, Hcr1.
     specialize (Hcr1 eq_refl). destruct Hi1 as [Hb1 Hic1].
     (* BEGIN *)
-    assert (HS1 : SB (ss st1) 0 false) by (unfold SB; auto).
+    assert (HS1 : SB (ss st1) 0 0) by (unfold SB; auto).
     destruct (csl_begin _ _ _ _ Hbg HS1) as (s2 & E2 & HS2).
     cbn [app]. rewrite (PG_noconsume _ _ _ Hc1).
     rewrite (step_quiet _ _ _ _ Hc1 E2 (kwtok_go _ _ Hbg) (or_introl (kwtok_not_semi _ _ Hbg))).
     (* body *)
     rewrite <- app_assoc. cbn [app].
     match goal with |- context [PG ?s (body ++ ?r)] =>
-      destruct (blk_run true body Hbody s r 1 1 false) as (st3 & E3 & [HS3 Hl3 Hc3] & Ha3) end;
-      [reflexivity|lia|lia|apply mk_body; [exact HS2|lia|reflexivity]|].
+      destruct (blk_run true body Hbody s r 1 1 0) as (st3 & E3 & [HS3 Hl3 Hc3] & Ha3) end;
+      [reflexivity|lia|lia|lia|apply mk_body; [exact HS2|lia|reflexivity]|].
     rewrite E3.
     (* END *)
     destruct (csl_end _ _ 1 Hen ltac:(lia) HS3) as (s4 & E4 & HS4).
